@@ -132,6 +132,7 @@ def _run_badoption(case):
 def _run_monitor(case):
     import random
     rng = random.Random(case["seed"])
+    gen.reseed_long(case["seed"])
     sc = core.Scale(*case["scale"])
     fails = []
     if rng.random() < 0.6:
